@@ -193,6 +193,7 @@ class OnionWorld:
                 c += [{"cid": self.cid(rc),
                     "goal": ci.goal_hops, "hops": [self.name_of_peer(h.peer) for h in ci.hops],
                     "unv": self.name_of_peer(ci.unverified_hop.peer) if ci.unverified_hop else "none",
+                    "via": self.name_of_addr(ci.hop.address) if (ci.hops or ci.unverified_hop) else "none",
                     "closing": ci.state == "CLOSING", "early": ci.relay_early_count,
                     "ctype": {"RP_DOWNLOADER": "RPD", "RP_SEEDER": "RPS"}.get(ci.ctype, ci.ctype),
                     "hs": ci.hs_session_keys is not None}]
@@ -336,6 +337,11 @@ class OnionWorld:
                 pl, _ = ov.serializer.unpack_serializable(DestroyPayload, d, offset=off)
                 rec["cid"] = self.cid_map.get(pl.circuit_id, 0)
                 rec["signer"] = self.key_name.get(auth.public_key_bin, "?key")
+                from ipv8.keyvault.crypto import default_eccrypto
+                key = default_eccrypto.key_from_public_bin(auth.public_key_bin)
+                siglen = key.get_signature_length()
+                if not default_eccrypto.is_valid_signature(key, d[:-siglen], d[-siglen:]):
+                    rec["signer"] = "nobody"        # names a key, but the signature does not verify
             except Exception:  # noqa: BLE001
                 rec["cid"] = 0
                 rec["signer"] = "?"
@@ -724,7 +730,7 @@ class OnionWorld:
         self._adv_put(src, dst, self._cell_bytes(cid_real, True, False, message))
         return self.log("AdvPlain", src=src, dst=dst, cid=spec_cid, mt=mt)
 
-    def forge_destroy(self, src, dst, spec_cid, replay_seq=None):
+    def forge_destroy(self, src, dst, spec_cid, replay_seq=None, claim=None):
         """signed by the attacker's own key, or (replay_seq) a genuine destroy seen on the wire, re-sent"""
         from ipv8.messaging.anonymization.payload import DestroyPayload
         from ipv8.messaging.payload_headers import BinMemberAuthenticationPayload
@@ -734,6 +740,13 @@ class OnionWorld:
             orig = next(d for d in self.net.wire if d.seq == replay_seq)
             data = orig.data
             signer = self.describe(orig)["signer"]
+        elif claim is not None:
+            # names the key of node `claim`; the signature is the attacker's (made with its own key): it does not verify
+            auth = BinMemberAuthenticationPayload(self.nodes[claim].my_peer.public_key.key_to_bin())
+            body = ov.get_prefix() + bytes([8]) + ov.serializer.pack_serializable_list(
+                [auth, DestroyPayload(self.real_cid(spec_cid), 1)])
+            data = body + default_eccrypto.create_signature(self.adv.my_peer.key, body)
+            signer = "nobody"
         else:
             auth = BinMemberAuthenticationPayload(self.adv.my_peer.public_key.key_to_bin())
             body = ov.get_prefix() + bytes([8]) + ov.serializer.pack_serializable_list(
